@@ -2,6 +2,8 @@
 
 package s2
 
+import "sync/atomic"
+
 // Locations of shared ShapeIndex state reported to verifAccess.
 const (
 	verifLocCells   = 0
@@ -16,5 +18,13 @@ var VerifAccessHook func(index *ShapeIndex, loc uint8, write bool)
 func verifAccess(index *ShapeIndex, loc uint8, write bool) {
 	if h := VerifAccessHook; h != nil {
 		h(index, loc, write)
+	}
+}
+
+func verifEdgeQueryPath(optimized bool) {
+	if optimized {
+		atomic.AddInt64(&VerifEdgeQueryPaths.Optimized, 1)
+	} else {
+		atomic.AddInt64(&VerifEdgeQueryPaths.BruteForce, 1)
 	}
 }
